@@ -109,6 +109,62 @@ def rtree(rng, big=False):
     return rmap(rng, 3, big, [rng.choice([2, 4, 6])])
 
 
+# lone surrogates (e.g. os.fsdecode of an undecodable file name, "\udc80").  MEASURED on the unchanged tree: json, yaml
+# (pure-Python Dumper/Loader) and pickle round-trip them as values and as keys, so they are inside those formats'
+# representable domain; bson raises UnicodeEncodeError and xml raises ExpatError (out-of-domain probes only).  A high
+# surrogate immediately followed by a low one is NOT in json's domain (json.loads joins the pair): never generated.
+SUR_STRS = ["\ud800", "\udc80", "\udfff", "\udbff", "a\ud800", "\udc80b", "a\ud83d b", "\ude00\ud83d", "\udc80\udc80",
+            "caf\udce9.txt", "\udc80 \ud800", "<\udcff>", "\U0001F600\udc00", "\ud800\U0001F600", "\n\udc80", "\udc80 "]
+SUR_KEYS = ["\udc80", "k\ud800", "\udfffz", "\udce9", "a\udc80b"]
+SUR_PARTS = ["a", " ", "\u00e9", "\ud800", "\udbff", "\udc00", "\udc80", "\udfff", "\U0001F600", "<", "1"]
+
+
+def is_sur(ch):
+    return 0xD800 <= ord(ch) <= 0xDFFF
+
+
+def has_surrogate(tree):
+    for v in walk(tree):
+        if isinstance(v, str) and any(is_sur(ch) for ch in v):
+            return True
+        if isinstance(v, dict) and any(isinstance(k, str) and any(is_sur(ch) for ch in k) for k in v):
+            return True
+    return False
+
+
+def rsur(rng):
+    if rng.random() < 0.6:
+        return rng.choice(SUR_STRS)
+    out = ""
+    for _ in range(rng.randint(1, 5)):
+        part = rng.choice(SUR_PARTS)
+        if out and 0xD800 <= ord(out[-1]) <= 0xDBFF and 0xDC00 <= ord(part[0]) <= 0xDFFF:
+            out += "x"                               # never a high surrogate directly before a low one
+        out += part
+    return out if any(is_sur(ch) for ch in out) else out + "\udc80"
+
+
+def inject_sur(rng, v, top=True):
+    """copy of v with lone-surrogate strings put in value, list-item and key positions"""
+    if isinstance(v, str):
+        return rsur(rng) if rng.random() < 0.5 else v
+    if isinstance(v, list):
+        out = [inject_sur(rng, x, False) for x in v]
+        if rng.random() < 0.3:
+            out.append(rsur(rng))
+        return out
+    if isinstance(v, dict):
+        out = {}
+        for k, x in v.items():
+            out[k] = inject_sur(rng, x, False)
+        if rng.random() < 0.4:
+            out[rng.choice(SUR_KEYS)] = rng.choice([rsur(rng), 1, None, [rsur(rng)]])
+        if top and not has_surrogate(out):
+            out[rng.choice(SUR_KEYS + ["s"])] = rsur(rng)
+        return out
+    return v
+
+
 # ---------------------------------------------------------------------------------------------
 # helpers on trees
 # ---------------------------------------------------------------------------------------------
@@ -329,12 +385,15 @@ def cases_for_tree(tree, tid, rng, full):
     inner = rng.choice(keys) if keys else "a"
     combos = [("json", {}), ("json", {"pretty": False}), ("json", {"pretty": True}), ("pickle", {}),
               ("yaml", {}), ("yaml", {"root_key": "root"}), ("yaml", {"root_key": inner}), ("yaml", {"root_key": ""})]
-    if not has_big(tree):
+    sur = has_surrogate(tree)
+    if not has_big(tree) and not sur:
         combos.append(("bson", {}))
     if not full:
         combos = [combos[0], combos[1], combos[3], combos[4], rng.choice(combos[5:7])] + combos[8:]
     for name, opts in combos:
         out.append({"kind": "wrap", "fmt": name, "dopts": opts, "lopts": opts, "tree": tree, "tid": tid})
+    if sur:
+        return out                       # outside the domain of bson and xml (measured): see PROBES
     tags = ["config", rng.choice(["cfg", "root", "item", "x-1", "é"] + keys)]
     for tag in (tags if full else [rng.choice(tags)]):
         out.append({"kind": "xml", "dump_tag": tag, "load_tag": tag, "tree": tree, "tid": tid})
@@ -375,6 +434,8 @@ PROBES = (
     + [("bson", {"a\x00b": 1}), ("bson", {"a.b": 1, "$c": 2})]
     + [("yaml", {"k": "\ud800"}), ("yaml", {"k": "\x00"}), ("yaml", {"k": "\r"}), ("yaml", {"\r": "a\r\nb"})]
     + [("json", {"k": "\ud800"}), ("json", {"k": "\x00\r"}), ("pickle", {"k": "\ud800\r\x00"}), ("json", {"k": 10 ** 30})]
+    + [("bson", {"k": "\udc80"}), ("bson", {"\udc80": 1}), ("xml", {"k": "a\udc80"}), ("xml", {"\udc80": 1}),
+       ("json", {"k": "\ud83d\ude00"}), ("json", {"\ud83d\ude00": 1}), ("yaml", {"k": "\ud83d\ude00"}), ("pickle", {"k": "\ud83d\ude00"})]
 )
 
 
@@ -389,6 +450,12 @@ def matrix_trees():
               {"b": 1, "a": 2}, {"item": {"item": [{"item": 1}]}, "type": "type"}, {"root": {"root": 1}, "config": {"config": None}},
               {"a": [True, 1, 1.0, "1", "True"]}, {"a": [False, 0, 0.0, -0.0, "0", "", None, [], {}]},
               {"a": 2 ** 64}, {"a": -10 ** 40, "b": [2 ** 63]}]
+    for sv in SUR_STRS:
+        trees.append({"a": sv})
+        trees.append({"l": [sv, "x"], "d": {"k": sv}})
+    for sk in SUR_KEYS:
+        trees.append({sk: 1, "z": {sk: [sk]}})
+        trees.append({sk: SUR_STRS[1], "a": None})
     return trees
 
 
@@ -441,6 +508,10 @@ def generate(rng, tier):
     # random trees
     for _ in range(110 if quick else 4000):
         t = rtree(rng, big=rng.random() < 0.2)
+        cases += cases_for_tree(t, tid, rng, False)
+        tid += 1
+    for _ in range(60 if quick else 2500):
+        t = inject_sur(rng, rtree(rng, big=rng.random() < 0.2))
         cases += cases_for_tree(t, tid, rng, False)
         tid += 1
     # the XML codec is the only one written in the repository: more trees for it alone
@@ -710,6 +781,8 @@ def kinds(tree):
             s.add("nan" if v != v else "inf" if v in (float("inf"), float("-inf")) else "negzero" if fbits(v) == fbits(-0.0)
                   else "subnormal" if 0 < abs(v) < 2.2250738585072014e-308 else "float")
         elif isinstance(v, str):
+            if any(is_sur(ch) for ch in v):
+                s.add("str_lone_surrogate")
             s.add("emptystr" if v == "" else "str_markup" if any(ch in v for ch in "<>&\"'") else
                   "str_space" if v.strip() != v else "str_nonbmp" if any(ord(ch) > 0xFFFF for ch in v) else
                   "str_wordlike" if v.lower() in ("1", "0", "true", "false", "null", "none", "yes", "no", "on", "off", "~", "nan", "inf") else "str")
@@ -717,6 +790,8 @@ def kinds(tree):
             s.add("emptylist" if not v else "list")
         elif isinstance(v, dict):
             s.add("emptymap" if not v else "map")
+            if any(isinstance(k, str) and any(is_sur(ch) for ch in k) for k in v):
+                s.add("key_lone_surrogate")
     return s
 
 
